@@ -278,6 +278,40 @@ theorem C15rib_durations (rv : Rotonda.Rib.Variant) (v : MVariant) (us : List Up
   have h := Dur_runFrom rv us (s := St.empty) (Dur_empty v)
   exact ⟨h.e2e, h.ins⟩
 
+theorem EK_runFrom (rv : Rotonda.Rib.Variant) (v : MVariant) (us : List Update) {ms : List Mui} {s : St}
+    (h : EK ms s.mx) : EK (ms ++ okMuisFrom rv s.rib us) (St.runFrom rv v s us).mx := by
+  induction us generalizing ms s with
+  | nil => simpa [okMuisFrom, St.runFrom] using h
+  | cons u us ih =>
+    have := ih (EK_apply rv v h u)
+    simpa [okMuisFrom, St.runFrom, rib_apply, List.append_assoc] using this
+
+/-- **Which ingresses have a sample, and what it shows.** After any history of updates the per-ingress
+    `rib_unit_e2e_duration` block has exactly one sample per ingress id for which the store accepted at
+    least one payload (announcement, or withdrawal of a prefix with a slot; `Reprocess` payloads and
+    blind withdrawals do not count, session-level withdrawals neither), and that sample has the class of
+    the duration variant. (The code drops a sample 60 s after its last update; metrics are read earlier.) -/
+theorem C15rib_e2e_ingresses (rv : Rotonda.Rib.Variant) (v : MVariant) (us : List Update) :
+    ((St.run rv v us).mx.e2e.map Prod.fst).Nodup ∧
+    ∀ ing, ing ∈ okMuis rv us ↔ (ing, v.durationFix) ∈ (St.run rv v us).mx.e2e := by
+  have h := EK_runFrom rv v us (s := St.empty) (ms := []) EK_empty
+  simp only [List.nil_append] at h
+  refine ⟨h.nd, fun ing => ?_⟩
+  rw [show okMuis rv us = okMuisFrom rv St.empty.rib us from rfl, ← h.mem ing]
+  show _ ∈ List.map Prod.fst (St.run rv v us).mx.e2e ↔ _
+  constructor
+  · intro hm
+    obtain ⟨x, hx, rfl⟩ := List.mem_map.mp hm
+    have := (C15rib_durations rv v us).1 x hx
+    rw [← this]; exact hx
+  · intro hm; exact List.mem_map.mpr ⟨_, hm, rfl⟩
+
+/-- non-vacuity: ingress 2 is accepted, ingress 3 only sends a blind withdrawal, ingress 4 only a
+    `Reprocess` payload, ingress 5 withdraws a prefix it never announced (accepted: the slot exists). -/
+example : okMuis {} [ann 2 3, wdr 3 true, .single ⟨⟨P, false, 1⟩, .reprocess, .active, 4⟩, wdr 5] = [2, 5] ∧
+    (St.run {} mAsWritten [ann 2 3, wdr 3 true, .single ⟨⟨P, false, 1⟩, .reprocess, .active, 4⟩, wdr 5]).mx.e2e
+      = [(2, false), (5, false)] := by decide
+
 /-- as written: all zero; repaired: all aged. -/
 theorem C15rib_durations_split (rv : Rotonda.Rib.Variant) (w : Bool) (us : List Update) :
     (∀ x ∈ (St.run rv { durationFix := false, wdEffectFix := w } us).mx.e2e, x.2 = false) ∧
